@@ -40,7 +40,7 @@ OBLIGATIONS = {"period:valid": 300, "period:missing": 100, "period:gap-missing":
                "unit:ns": 20, "tz:utc": 20, "tz:+10": 20, "era:outside-int32-seconds": 20,
                "era:across-epoch": 3, "kernel:prefilled-buffer": 50,
                "era:beyond-nanosecond-range": 5, "process-tz:non-utc": 50,
-               "record-longer-than-2^31-seconds": 2, "long-interval:accepted-by-maxgapsec": 2}
+               "record-longer-than-2^31-seconds": 2, "maxgap:on-an-interval-of-the-record": 20, "long-interval:accepted-by-maxgapsec": 2}
 
 T0 = 946684800      # 2000-01-01 00:00:00 UTC
 
@@ -362,6 +362,17 @@ def run(ctx):
         stamps, vals = gen_series(rng, it, ctx.tier)
         P = [3600, 1800][it % 2]
         maxgap = [3600, 7200, 5 * 86400][int(rng.integers(0, 3))]
+        if it % 3 == 1 and len(stamps) >= 2:
+            # the limit set on the length of one of the record's own intervals (or one
+            # second either side), and limits that are not whole hours
+            dd_ = np.diff(np.asarray(stamps, dtype=np.int64))
+            dd_ = dd_[dd_ > 3601]          # (limits below one hour are refused)
+            if len(dd_):
+                maxgap = int(dd_[int(rng.integers(0, len(dd_)))]) + int(rng.integers(-1, 2))
+                maxgap = max(3600, maxgap)
+                ctx.tag("maxgap:on-an-interval-of-the-record")
+        elif it % 3 == 2:
+            maxgap = [5400, 4000, 3601, 86399, 100000, 7199, 9001, 5000][it // 3 % 8]
         rainfall = bool((it // 2) % 2)
         if it0 % 3 == 0:
             variants = ALLVAR
